@@ -143,8 +143,20 @@ def c12_program(draw):
             pos = draw(st.integers(lo, len(body)))
             fwd = draw(st.integers(0, 3)) != 0
             k = draw(st.integers(0, 64)) if fwd else -draw(st.integers(1, 64))
-            spell = draw(st.sampled_from(["dot", "label", "symbol", "dot"]))
+            spell = draw(st.sampled_from(["dot", "label", "symbol", "dot", "repeat-mod"]))
             here = f"hh{len(meta['skips'])}{path[1]}"
+            if spell == "repeat-mod":
+                # inside a .repeat body, the amount depending on '.' through an operator that is evaluated on numbers only: every
+                # copy skips a different amount
+                n = draw(st.integers(2, 4))
+                op, m = draw(st.sampled_from([("%", 4), ("%", 3), ("/", 2), (">>", 1)]))
+                amount = ("bin", op, ("bin", "-", ("dot",), ("sym", here)), ("num", m))
+                new = [{"k": "label", "name": here}, {"k": "repeat", "e": ("num", n), "body": [{"k": "data", "d": "byte", "es": [("num", 1)]},
+                                                                                          {"k": "skip", "e": ("bin", "+", ("dot",), amount)}]}, {"k": "even"}]
+                body[pos:pos] = new
+                meta["skips"].append(1)
+                meta["repeat_skip"] = True
+                continue
             if spell == "dot":
                 tgt = ("bin", "+" if k >= 0 else "-", ("dot",), ("num", abs(k)))
                 new = [{"k": "skip", "e": tgt}]
@@ -203,6 +215,8 @@ def run_shard(spec, ctx):
         nt = meta["diffs"] > 0 or any(meta["skips"])
         labels = [f"kind-{meta['kind']}", f"model-{r.kind}" + (":" + r.errors[0] if r.errors else ""), f"files-{len(prog['mains'])}"]
         labels += ["shape-" + s for s in meta.get("shapes", [])]
+        if meta.get("repeat_skip"):
+            labels.append("skip-in-repeat")
         if meta.get("decoys"):
             labels.append("decoy-export")
         labels.append("directive-in-first-file" if not prog["mains"] or any(s["k"] == "link" for s in prog["files"][prog["mains"][0]]) or meta["kind"] == "none" else "directive-in-later-file")
